@@ -1227,7 +1227,7 @@ Proof.
     { rewrite get_all_extend. rewrite contains_false_get_all; [reflexivity|]. now apply sanitize_drops. }
     destruct (st_msg st); destruct (st_details st);
       (eexists; exists cv; split; [reflexivity|]); cbn [rs_status rs_body rs_headers];
-      repeat split; hm_ins; auto.
+      repeat split; rewrite ?get_all_remove_other by reflexivity; hm_ins; auto.
 Qed.
 
 Theorem heads origin send accept md path resp ae :
@@ -1304,7 +1304,7 @@ Proof.
   destruct (st_msg st); destruct (st_details st);
     repeat match goal with |- context [mk_hv ?x] => destruct (mk_hv x) end;
     intros H; try discriminate; injection H as <-; cbn [rs_status rs_body rs_headers];
-    repeat split; try (exists cv); hm_ins; auto.
+    repeat split; try (exists cv); rewrite ?get_all_remove_other by reflexivity; hm_ins; auto.
 Qed.
 
 Theorem client_call_link cl md path h c :
